@@ -6,6 +6,8 @@ import (
 	"sort"
 	"strings"
 	"testing"
+
+	"pgregory.net/rapid"
 )
 
 func replayOrNoTable() bool {
@@ -47,3 +49,16 @@ func trimStack(st []byte) string {
 }
 
 func debugStack() []byte { return debug.Stack() }
+
+// spreadInt draws an integer in [0, n) with a flat distribution: rapid's integer
+// generators favour small values, which starves the later alternatives of a
+// class switch. The draw is still a rapid draw (it shrinks towards class h(0)).
+func spreadInt(t *rapid.T, label string, n int) int {
+	x := rapid.Uint64().Draw(t, label)
+	x ^= x >> 33
+	x *= 0xff51afd7ed558ccd
+	x ^= x >> 33
+	x *= 0xc4ceb9fe1a85ec53
+	x ^= x >> 33
+	return int(x % uint64(n))
+}
